@@ -487,10 +487,14 @@ def pExtract (d : Gen.D) : Nat → List Tok → R Expr
     | [] => .error .parse
     | g :: r => match pCompute d f g.children with
       | .error e => .error e
-      | .ok (n, r1) => match matchSeq r1 ["FROM"] with
-        | .error e => .error e
-        | .ok (_, r2) => match closed (pCompute d f r2) with
-          | .ok c => .ok (.extract n c, r) | .error e => .error e
+      | .ok (n, r1) => (match pExtractTail d f n r1 with | .ok x => .ok (x, r) | .error e => .error e)
+def pExtractTail (d : Gen.D) : Nat → Expr → List Tok → Except Err Expr
+  | 0, _, _ => .error .fuel
+  | f+1, n, r1 =>
+    match matchSeq r1 ["FROM"] with
+    | .error e => .error e
+    | .ok (_, r2) => match closed (pCompute d f r2) with
+      | .ok c => .ok (.extract n c) | .error e => .error e
 def pWindow (d : Gen.D) : Nat → List Tok → R Expr
   | 0, _ => .error .fuel
   | f+1, ts =>
@@ -586,11 +590,15 @@ def pJoin (d : Gen.D) : Nat → List Tok → R Join
     | none => .error .parse
     | some (jt, r) => match pFromTable d f r with
       | .error e => .error e
-      | .ok (t, r1) =>
-        if !onUsingHead r1 then .ok (.mk jt t none, r1)
-        else if searchStrUp r1 "ON" then
-          (match pOr d f (r1.drop 1) with | .ok (c, r2) => .ok (.mk jt t (some (.on c)), r2) | .error e => .error e)
-        else (match pFunc d f r1 with | .ok (u, r2) => .ok (.mk jt t (some (.using u)), r2) | .error e => .error e)
+      | .ok (t, r1) => pJoinRule d f jt t r1
+/-- `_parse_join_expression` applied after the table of a join -/
+def pJoinRule (d : Gen.D) : Nat → String → FromTable → List Tok → R Join
+  | 0, _, _, _ => .error .fuel
+  | f+1, jt, t, r1 =>
+    if !onUsingHead r1 then .ok (.mk jt t none, r1)
+    else if searchStrUp r1 "ON" then
+      (match pOr d f (r1.drop 1) with | .ok (c, r2) => .ok (.mk jt t (some (.on c)), r2) | .error e => .error e)
+    else (match pFunc d f r1 with | .ok (u, r2) => .ok (.mk jt t (some (.using u)), r2) | .error e => .error e)
 /-- join loop: the look-ahead is on `look`, the parse on `inner` (parser.py:1453-1454); `same` = they are one cursor -/
 def pJoins (d : Gen.D) : Nat → Bool → List Tok → List Join → List Tok → R (List Join)
   | 0, _, _, _, _ => .error .fuel
@@ -669,10 +677,14 @@ def pWithTable (d : Gen.D) : Nat → List Tok → R WithTable
     | [] => .error .parse
     | n :: r => match matchSeq r ["AS"] with
       | .error e => .error e
-      | .ok (_, r1) => match r1 with
-        | [] => .error .parse
-        | g :: r2 => match closed (pSelectStmt d f (some []) g.children) with
-          | .ok q => .ok (.mk (unifyName n.src) q, r2) | .error e => .error e
+      | .ok (_, r1) => pWithBody d f (unifyName n.src) r1
+def pWithBody (d : Gen.D) : Nat → String → List Tok → R WithTable
+  | 0, _, _ => .error .fuel
+  | f+1, name, r1 =>
+    match r1 with
+    | [] => .error .parse
+    | g :: r2 => match closed (pSelectStmt d f (some []) g.children) with
+      | .ok q => .ok (.mk name q, r2) | .error e => .error e
 def pWithTables (d : Gen.D) : Nat → List WithTable → List Tok → R (List WithTable)
   | 0, _, _ => .error .fuel
   | f+1, acc, ts =>
@@ -722,19 +734,31 @@ def pSelectRest (d : Gen.D) : Nat → List WithTable → Bool → List (Expr × 
 def pSelectTail (d : Gen.D) : Nat → List WithTable → Bool → List (Expr × Option String) → Option (List FromTable) → List Lateral → List Join → List Tok → R Select
   | 0, _, _, _, _, _, _, _ => .error .fuel
   | f+1, withs, dist, cols, fr, lats, js, ts =>
+    match pWhereGroup d f ts with
+    | .error e => .error e
+    | .ok ((wh, gb), r2) => match pHavingOrder d f r2 with
+      | .error e => .error e
+      | .ok ((hv, ob), r4) => match pHiveClauses d f r4 with
+        | .error e => .error e
+        | .ok ((sb, db, cb), r4') => match pLimit r4' with
+          | .error e => .error e
+          | .ok (lm, r5) => .ok (.mk (some withs) dist cols fr lats js wh gb hv ob sb db cb lm, r5)
+def pWhereGroup (d : Gen.D) : Nat → List Tok → R (Option Expr × Option GroupBy)
+  | 0, _ => .error .fuel
+  | f+1, ts =>
     match pOptOr d f "WHERE" ts with
     | .error e => .error e
     | .ok (wh, r1) => match pGroupBy d f r1 with
       | .error e => .error e
-      | .ok (gb, r2) => match pOptOr d f "HAVING" r2 with
-        | .error e => .error e
-        | .ok (hv, r3) => match pOrderByOpt d f r3 with
-          | .error e => .error e
-          | .ok (ob, r4) => match pHiveClauses d f r4 with
-            | .error e => .error e
-            | .ok ((sb, db, cb), r4') => match pLimit r4' with
-              | .error e => .error e
-              | .ok (lm, r5) => .ok (.mk (some withs) dist cols fr lats js wh gb hv ob sb db cb lm, r5)
+      | .ok (gb, r2) => .ok ((wh, gb), r2)
+def pHavingOrder (d : Gen.D) : Nat → List Tok → R (Option Expr × Option (List OrderItem))
+  | 0, _ => .error .fuel
+  | f+1, ts =>
+    match pOptOr d f "HAVING" ts with
+    | .error e => .error e
+    | .ok (hv, r3) => match pOrderByOpt d f r3 with
+      | .error e => .error e
+      | .ok (ob, r4) => .ok ((hv, ob), r4)
 /-- `_parse_sort_by_clause`, `_parse_distribute_by_clause`, `_parse_cluster_by_clause` -/
 def pHiveClauses (d : Gen.D) : Nat → List Tok → R (Option (List OrderItem) × Option (List Expr) × Option (List Expr))
   | 0, _ => .error .fuel
